@@ -92,7 +92,9 @@ Ideal(t) == \E k \in Keys, c \in Ctrs, a \in 1..Levels, b \in 1..Levels : a <= b
 
 (* ---- model: one recombination per initial state ---- *)
 VARIABLE term
-Init == term \in Terms
+(* (quantifier by quantifier: TLC refuses to build the whole set Terms once it has more than a million elements) *)
+Init == \E n \in 0..MaxNspk : \E sp \in SpkSeqs(n) : \E l \in SigComps : \E m \in Contents : \E p \in Pks :
+            term = [nspk |-> n, spks |-> sp, last |-> l, msg |-> m, pk |-> p]
 Next == UNCHANGED term
 Spec == Init /\ [][Next]_term
 
